@@ -81,7 +81,8 @@ fn build_real(a: &Art, front: usize) -> Result<Vec<u8>, String> {
         0 => {
             let mut b = Builder::new_type(Vec::new(), 0).map_err(e)?;
             for (k, v) in &a.kvs {
-                if a.is_map { b.insert(k, *v).map_err(e)?; } else { b.add(k).map_err(e)?; }
+                // a set builder accepts a repeated key as a no-op
+                if a.is_map { b.insert(k, *v).map_err(e)?; } else { b.add(k).map_err(e)?; b.add(k).map_err(e)?; }
             }
             b.into_inner().map_err(e)
         }
@@ -271,7 +272,7 @@ pub fn emit_rust(built: &[Built], seed: u64, tier: &str, want: &dyn Fn(&str) -> 
     let mut c02: Vec<usize> = vec![];
     let mut c16: Vec<usize> = vec![];
     let mut c10: Vec<usize> = vec![];
-    let always_c02 = ["months", "only_empty_key_map", "empty", "uncommon_bytes", "uncommon_chain", "zero_after_prefix", "fan33_set", "fan256_map"];
+    let always_c02 = ["months", "only_empty_key_map", "empty", "uncommon_bytes", "uncommon_chain", "zero_after_prefix", "fan33_set", "fan256_map", "rootfinal40", "kfinal33"];
     let thorough_c02 = ["fan33_deep", "months_set", "chain", "boundary", "fan31_map", "fan32_map", "fan33_map", "fan34_set", "fan255_map",
                         "fan256_map", "fan256_deep", "fan32_deep", "only_empty_key_set", "mono_deep"];
     for n in always_c02.iter() { if let Some(i) = by_name(n) { c02.push(i); } }
@@ -288,7 +289,7 @@ pub fn emit_rust(built: &[Built], seed: u64, tier: &str, want: &dyn Fn(&str) -> 
     // the 35-byte v2 file {"a"} = abset_002 (mask bit 1 = "a")
     for n in ["abset_002", "months", "fan33_set", "only_empty_key_set", "only_empty_key_map", "empty"].iter() { if let Some(i) = by_name(n) { c10.push(i); } }
     c10.extend(pick(built, "ab", if thorough { 12 } else { 2 }, &mut rng, &|b| b.art.kvs.len() >= 2));
-    if thorough { for n in ["fan33_deep", "fan256_map", "fan34_set", "uncommon_bytes", "chain"].iter() { if let Some(i) = by_name(n) { c10.push(i); } } }
+    if thorough { for n in ["rootfinal40", "kfinal33", "fan33_deep", "fan256_map", "fan34_set", "uncommon_bytes", "chain"].iter() { if let Some(i) = by_name(n) { c10.push(i); } } }
     c02.dedup(); c16.dedup(); c10.dedup();
 
     let mut emitted_static: Vec<String> = vec![];
@@ -308,11 +309,13 @@ pub fn emit_rust(built: &[Built], seed: u64, tier: &str, want: &dyn Fn(&str) -> 
             emit_static(&mut s, &sname, &b.bytes);
             let mut maxl = if thorough { 4 } else { 3 }.min(b.depth + 1);
             if b.art.group == "fan" && !thorough { maxl = 1; }
+            if b.art.group == "wide" { maxl = b.depth; }
             if b.art.name == "uncommon_chain" { maxl = 4; }
             let scan = if b.max_fanout > 32 { 32 } else { b.max_fanout };
             for l in 0..=maxl {
                 if b.art.name == "uncommon_chain" && (l == 1 || l == 2) { continue; }
                 if b.art.group == "fan" && l == 0 && !thorough { continue; }
+                if b.art.name == "kfinal33" && l == 0 { continue; }
                 let mname = format!("{}_l{}", name, l);
                 if !emitted_models.contains(&mname) { emitted_models.push(mname); s.push_str(&model_fn(name, l, &b.art.kvs)); }
                 let unwind = scan.max(8).max(l) + 2;
@@ -371,7 +374,7 @@ pub fn emit_rust(built: &[Built], seed: u64, tier: &str, want: &dyn Fn(&str) -> 
     // ---- C09: the current builder's bytes read by the independent reader ---
     if want("C09") {
         let mut c09: Vec<usize> = vec![];
-        for n in ["fan32_map", "fan33_map", "months", "uncommon_chain", "zero_after_prefix"].iter() { if let Some(i) = by_name(n) { c09.push(i); } }
+        for n in ["fan32_map", "fan33_map", "months", "uncommon_chain", "zero_after_prefix", "rootfinal40", "fan34_set"].iter() { if let Some(i) = by_name(n) { c09.push(i); } }
         c09.extend(pick(built, "ab", if thorough { 10 } else { 1 }, &mut rng, &|b| b.art.kvs.len() >= 3));
         if thorough { for n in ["fan31_map", "fan34_set", "fan255_map", "fan256_map", "boundary", "chain"].iter() { if let Some(i) = by_name(n) { c09.push(i); } } }
         for &i in &c09 {
@@ -379,7 +382,7 @@ pub fn emit_rust(built: &[Built], seed: u64, tier: &str, want: &dyn Fn(&str) -> 
             let name = &b.art.name;
             let sname = format!("F_{}", name.to_uppercase());
             emit_static(&mut s, &sname, &b.bytes);
-            let maxl = if b.art.group == "fan" { 1 } else { 3.min(b.depth) };
+            let maxl = if b.art.group == "fan" || b.art.group == "wide" { 1 } else { 3.min(b.depth) };
             for l in 1..=maxl.max(1) {
                 if name == "uncommon_chain" && l < 3 { continue; }
                 let l = if name == "uncommon_chain" { 4 } else { l };
@@ -396,6 +399,7 @@ fn {h}() {{
     let want = model_{n}_l{l}(&p);
     let got = crate::layout::indep_get(&{sn}[..], &p[..]);
     assert!(got == want, \"reading the builder's bytes by the format description alone does not yield the inserted map\");
+    assert!(crate::layout::indep_root_index_ok(&{sn}[..], p[0]), \"index table of a wide root disagrees with its input bytes\");
     assert!(crate::layout::indep_len(&{sn}[..]) == {nk}, \"footer key count\");
 }}
 ", uw = unwind, h = hname, l = l, n = name, sn = sname, nk = b.art.kvs.len());
